@@ -252,6 +252,7 @@ func (e *Explorer) Run() (Stats, []Found) {
 					pre := Decode(preDump)
 					for ai, a := range e.Sc.Alphabet {
 						child := st.Branch()
+						journalSet(w.slot, e.Sc.Name, hist, ai)
 						post, res := applyAction(w, child, a)
 						atomic.AddInt64(&trans, 1)
 						if a.Gap == 0 {
@@ -498,6 +499,7 @@ func (e *Explorer) RunHistories(hists [][]int) (Stats, []Found) {
 				}
 				for _, ai := range n.next {
 					a := e.Sc.Alphabet[ai]
+					journalSet(w.slot, e.Sc.Name, n.prefix, ai)
 					post, res := applyAction(w, st.Branch(), a)
 					atomic.AddInt64(&trans, 1)
 					postDump, postSnap := preDump, pre
